@@ -20,7 +20,7 @@ pub static PROP: Prop = Prop {
 
 #[derive(Debug, Clone, Serialize, Deserialize, PartialEq)]
 pub struct SourceSpec {
-    /// 0 incompressible, 1 VBA-like text, 2 long runs, 3 mixture
+    /// 0 incompressible, 1 VBA-like text, 2 long runs, 3 mixture, 4 blocks whose greedy compression fills a chunk to exactly 4096 data bytes
     pub kind: u8,
     pub len: u32,
     pub seed: u32,
@@ -34,6 +34,32 @@ pub fn source(s: &SourceSpec) -> Vec<u8> {
         x ^= x >> 27;
         x.wrapping_mul(0x2545_F491_4F6C_DD1D)
     };
+    if s.kind == 4 {
+        // chunks whose greedy compression is exactly 4096 bytes of data (the largest size field,
+        // 0xFFF): one literal, one copy of 457 bytes, 3638 literals = 3640 tokens, 455 flag bytes
+        let mut out = vec![];
+        for block in 0..(1 + s.len % 3) {
+            let x = b'A' + (block as u8 % 20);
+            out.extend(std::iter::repeat(x).take(458));
+            let mut seen = std::collections::BTreeSet::new();
+            let (mut p2, mut p1) = (x, x);
+            for _ in 0..3638 {
+                let mut c = (next() >> 32) as u8 & 0x7F;
+                for _ in 0..50 {
+                    if c != x && c != p1 && !seen.contains(&(p2, p1, c)) {
+                        break;
+                    }
+                    c = (next() >> 32) as u8 & 0x7F;
+                }
+                seen.insert((p2, p1, c));
+                out.push(c);
+                p2 = p1;
+                p1 = c;
+            }
+        }
+        out.extend_from_slice(&b"End Sub\r\n".repeat((s.len % 40) as usize));
+        return out;
+    }
     let words: [&[u8]; 10] = [b"Sub ", b"End Sub\r\n", b"Dim x As Integer\r\n", b"MsgBox \"hi\"\r\n", b"    ", b"abcabcabc", b"Attribute VB_Name = \"Module1\"\r\n", b"x = x + 1\r\n", b"'", b"\r\n"];
     let mut out = Vec::with_capacity(s.len as usize + 64);
     while out.len() < s.len as usize {
@@ -61,7 +87,7 @@ pub fn source(s: &SourceSpec) -> Vec<u8> {
 
 fn source_strategy() -> impl Strategy<Value = SourceSpec> {
     let len = prop_oneof![3 => proptest::sample::select(vec![0u32, 1, 2, 3, 4095, 4096, 4097, 8191, 8192, 8193, 12288]), 3 => 0u32..600, 3 => 0u32..9000, 1 => 0u32..20480];
-    (0u8..4, len, any::<u32>()).prop_map(|(kind, len, seed)| SourceSpec { kind, len, seed })
+    (prop_oneof![12 => 0u8..4, 1 => Just(4u8)], len, any::<u32>()).prop_map(|(kind, len, seed)| SourceSpec { kind, len, seed })
 }
 
 pub fn tok_strategy() -> impl Strategy<Value = Tokenisation> {
@@ -103,6 +129,13 @@ fn oracle_container(c: &Container) -> Report {
         Err(p) => rep.fail(format!("decompression of a valid container ({} bytes of source, {} chunks): {p}", src.len(), info.chunks)),
     }
     rep.label(["tokens:literals-only", "tokens:greedy", "tokens:random", "tokens:longest-far"][c.tok.mode as usize % 4]);
+    // chunk headers: a compressed chunk with the largest size field (4096 data bytes)
+    let mut i = 1;
+    while i + 2 <= packed.len() {
+        let h = u16::from_le_bytes([packed[i], packed[i + 1]]);
+        rep.label_if(h & 0x8000 != 0 && h & 0x0FFF == 0x0FFF, "compressed-chunk-of-4096-data-bytes");
+        i += 2 + (h & 0x0FFF) as usize + 1;
+    }
     rep.label_if(info.raw_chunks > 0, "raw-chunk");
     rep.label_if(info.overlapping_copies > 0, "overlapping-copy");
     rep.label_if(info.max_length_copies > 0, "maximum-length-copy");
@@ -192,6 +225,11 @@ fn desc(p: &Project) -> VbaProjectDesc {
                         _ => 0xE9,
                     };
                     source[0] = hi;
+                    // code page 1252 also has printable characters in 0x80..0x9F (euro sign, dashes,
+                    // curly quotes): not Latin-1
+                    if p.codepage == 1252 && source.len() >= 2 {
+                        source[1] = 0x80 + (m.flags >> 3) % 32;
+                    }
                 }
                 if m.flags & 64 != 0 && p.codepage != 932 && source.len() >= 3 {
                     // module text that begins with the bytes of a byte-order mark (a file saved as
@@ -320,7 +358,13 @@ fn oracle_project(p: &Project) -> Report {
 
 fn run(ctx: &mut Ctx) {
     let n = ctx.n(4000, 400_000);
-    ctx.run_fast("container", n, || (source_strategy(), tok_strategy()).prop_map(|(src, tok)| Container { src, tok }), oracle_container);
+    ctx.run_fast("container", n, || (source_strategy(), tok_strategy()).prop_map(|(src, mut tok)| {
+        if src.kind == 4 {
+            tok.mode = 1;
+            tok.raw_mask = 0;
+        }
+        Container { src, tok }
+    }), oracle_container);
     let n = ctx.n(600, 15_000);
     ctx.run("project", n, project_strategy, oracle_project);
     ctx.assumptions.push("module and stream names and module text use ASCII plus characters whose code-page byte is the same in every table version (Latin-1 upper half / Cyrillic / half-width katakana); stream names equal module names or carry a suffix".into());
